@@ -270,7 +270,8 @@ class Ctx:
         s.set("timeout", int(self.timeout_ms))
         s.add(*[c for c, _ in self.cons])
         m = {}
-        if _guarded_check(s, int(self.timeout_ms)) == "sat":
+        self.last_pc_status = _guarded_check(s, int(self.timeout_ms))
+        if self.last_pc_status == "sat":
             self._read_model(s.model(), m)
         return m
 
@@ -332,6 +333,9 @@ class Ctx:
             rec["verdict"] = "syntactic" if cond else "violated"
             if not cond:
                 rec["model"] = self.model_of_pc()
+                if self.cons and self.last_pc_status != "sat":
+                    # no witness for this path: an infeasible path proves anything, an undecided one proves nothing
+                    rec["verdict"] = "discharged" if self.last_pc_status == "unsat" else "inconclusive"
             self.obligations.append(rec)
             return rec["verdict"]
         cond = z3.simplify(cond)
